@@ -18,6 +18,11 @@ func init() { streams["compact"] = compactStream }
 // schedules of commit / drop cache / re-fetch of handles; observations, logical content and
 // structural validity must agree (the registers may differ for compact maps, by the property's
 // own exception).
+//
+// Every second program NAMES its fields (hx.NK: a key whose ComparableStorable.ID() is the bare field name):
+// the children then have DIFFERENT field sets whose names are prefixes of each other and concatenate to the
+// same string ({"ab","c",..} / {"a","bc",..} / {"abc",..} / {"a","b","c",..}), so the children are of different
+// compact types although the IDs of their keys, put side by side, read the same (sweep s5, S1).
 func compactStream(cfg *Config) *hx.Stats {
 	st := hx.NewStats("compact", cfg.Seed)
 	viol := func(p int, what string) {
@@ -37,6 +42,26 @@ func compactStream(cfg *Config) *hx.Stats {
 		atree.VerifSetThreshold(T)
 		nChildren := 2 + rng.Intn(4)
 		nFields := 3 + rng.Intn(3)
+		named := p%2 == 1
+		// keyOf: the key of field f of child c; after the first reload the program uses the key type its
+		// decoder hands back (TV), like a client whose keys decode to their own type
+		keyOf := func(c int, f uint64, reloaded bool) atree.Value {
+			if !named {
+				return hx.TV{Size: 9, Pay: f}
+			}
+			fam := compactNameFamilies[c%len(compactNameFamilies)]
+			name := fmt.Sprintf("f%d", f)
+			if int(f) <= len(fam) {
+				name = fam[f-1]
+			}
+			if reloaded {
+				return hx.NK{Name: name}.TV()
+			}
+			return hx.NK{Name: name}
+		}
+		if named {
+			st.Hit("named-fields")
+		}
 		var ops []op
 		for i := 0; i < 80; i++ {
 			o := op{child: rng.Intn(nChildren), field: uint64(1 + rng.Intn(nFields)), val: hx.TV{Size: uint32(3 + rng.Intn(8)), Pay: uint64(rng.Intn(200))}}
@@ -68,7 +93,7 @@ func compactStream(cfg *Config) *hx.Stats {
 					return nil, "", err.Error()
 				}
 				for f := 1; f <= nFields; f++ {
-					if _, err := m.Set(hx.CompareKey, hx.HashInput, hx.TV{Size: 9, Pay: uint64(f)}, hx.TV{Size: 4, Pay: uint64(10*c + f)}); err != nil {
+					if _, err := m.Set(hx.CompareKey, hx.HashInput, keyOf(c, uint64(f), false), hx.TV{Size: 4, Pay: uint64(10*c + f)}); err != nil {
 						return nil, "", err.Error()
 					}
 				}
@@ -78,7 +103,9 @@ func compactStream(cfg *Config) *hx.Stats {
 				children[c] = m
 			}
 			rootID := parent.SlabID()
+			reloaded := false
 			refetch := func() string {
+				reloaded = true
 				a, err := atree.NewArrayWithRootID(ps, rootID)
 				if err != nil {
 					return err.Error()
@@ -111,7 +138,7 @@ func compactStream(cfg *Config) *hx.Stats {
 						return nil, "", "refetch: " + e
 					}
 				}
-				k := hx.TV{Size: 9, Pay: o.field}
+				k := keyOf(o.child, o.field, reloaded)
 				m := children[o.child]
 				switch o.kind {
 				case "set":
@@ -129,7 +156,7 @@ func compactStream(cfg *Config) *hx.Stats {
 			for c, m := range children {
 				fmt.Fprintf(&sb, "%d:%d{", c, m.Count())
 				for f := 1; f <= nFields; f++ {
-					v, err := m.Get(hx.CompareKey, hx.HashInput, hx.TV{Size: 9, Pay: uint64(f)})
+					v, err := m.Get(hx.CompareKey, hx.HashInput, keyOf(c, uint64(f), reloaded))
 					fmt.Fprintf(&sb, "%d=%v/%s,", f, v, obsErr(err))
 				}
 				sb.WriteString("} ")
@@ -168,8 +195,22 @@ func compactStream(cfg *Config) *hx.Stats {
 			}
 		}
 	}
+	if nProg >= 2 && st.Dist["named-fields"] == 0 && st.HarnessErr == "" {
+		st.HarnessErr = "compact stream ran no program with named fields"
+	}
 	st.Distinct = st.Programs + 1
 	st.Samples = append(st.Samples, "parent array with 2-5 inlined maps of one composite type and the same 3-5 fields (compact encoding, shared keys/digests); 80 field-level set/remove/get operations under never-commit vs commit+drop-cache / commit+reopen every 1,2,5,8 operations with handles re-fetched")
 	atree.VerifSetThreshold(1024)
 	return st
+}
+
+// compactNameFamilies: field-name sets of the children of a named program.  Read without separators the
+// names of any two families concatenate to the same string ("abcx"), some are prefixes of others, one is
+// empty; none contains the library's separator (","): see the probe in codecnamed.go.
+var compactNameFamilies = [][]string{
+	{"ab", "c", "x"},
+	{"a", "bc", "x"},
+	{"abc", "x"},
+	{"a", "b", "c", "x"},
+	{"", "abcx"},
 }
